@@ -291,11 +291,13 @@ def mergeOracle (c : Json) : R (Option Json) := do
     | some ta =>
       -- A itself is created by merging into an empty config under optsA
       let (ga, fsa) ← fieldSpecs ((optField c "optsA").getD (.arr #[]))
-      -- list-index and `*` segments are outside the oracle (checked against the model only)
-      let hasIdxSeg (fs : List (List String × Handling)) : Bool :=
-        fs.any (fun (p, _) => p.any (fun seg => seg == "*" || seg == "**" || (IntLit.parseIntS seg).isSome))
+      -- `**` wildcards and option sets where a `*` and an index compete for one element are outside the oracle
+      -- (checked against the model only)
+      let undecided (fs : List (List String × Handling)) : Bool :=
+        fs.any (fun (p, _) => p.any (fun seg => seg == "**" || seg == "" || (seg != "*" && seg.toNat?.isNone && (IntLit.parseIntS seg).isSome)))
+          || Spec.C01.ambiguous fs
       let stepSpecs ← steps.mapM (fun s => fieldSpecs ((optField s "opts").getD (.arr #[])))
-      if hasIdxSeg fsa || stepSpecs.any (fun (_, fs) => hasIdxSeg fs) then return none
+      if undecided fsa || stepSpecs.any (fun (_, fs) => undecided fs) then return none
       let t0 := Spec.C01.merge (Spec.C01.polOf ga fsa) [] (.node [] []) ta
       let rec go (t : Spec.C01.T) : List Json → R (Option Spec.C01.T)
         | [] => pure (some t)
@@ -736,11 +738,49 @@ def runEval (std : Stdlib) (c : Json) : R (Json × Option Json × Option String)
             | (g, w) :: _ => some (failOracle s!"a read differs from late-bound substitution: got {g.compress}, want {w.compress}")
   pure (Json.mkObj [("reads", model), ("outcomes", .num 1)], oracle, none)
 
+mutual
+/-- C13 frame, recursively: the first position at which something the configuration has no setting for has changed -/
+partial def frameRec (uo : Opts) (pfx : String) : Ty → GoVal → GoVal → Val → Option String
+  | .strct fs, .strct os, .strct gs, cfg =>
+    (fs.zip (os.zip gs)).findSome? (fun ((g, tag, vtag, t), (ov, gv)) =>
+      let same := (goValJson ov).compress == (goValJson gv).compress
+      match accessField uo g tag vtag with
+      | .ok none => if same then none else some (pfx ++ g)
+      | .ok (some fi) =>
+        if fi.tag.squash then none
+        else match pathGet tcPlain (parsePathOpts fi.name uo) cfg with
+          | .ok none => (match t with | .strct _ => none | _ => if same then none else some (pfx ++ fi.name))
+          | .ok (some sub) => frameIn { uo with handling := fi.handling } (pfx ++ fi.name ++ ".") t ov gv sub
+          | _ => none
+      | _ => none)
+  | _, _, _, _ => none
+partial def frameIn (uo : Opts) (pfx : String) : Ty → GoVal → GoVal → Val → Option String
+  | .strct fs, ov, gv, .sub d a hd ha => frameRec uo pfx (.strct fs) ov gv (.sub d a hd ha)
+  | .ptr t, .ptr (some ov), .ptr (some gv), sub => frameIn uo pfx t ov gv sub
+  | .array _ t, .array ol, .array gl, .sub _ arr _ _ =>
+    ((ol.zip (gl.zip arr)).zipIdx).findSome? (fun ((ov, gv, s), i) => frameIn uo (pfx ++ toString i ++ ".") t ov gv s)
+  | .slice t, .slice (some ol), .slice (some gl), .sub _ arr _ _ =>
+    if uo.handling = .dflt || uo.handling = .merge then
+      ((ol.zip (gl.zip arr)).zipIdx).findSome? (fun ((ov, gv, s), i) => frameIn uo (pfx ++ toString i ++ ".") t ov gv s)
+    else none
+  | .map t, .map (some om), .map (some gm), .sub d _ _ _ =>
+    if uo.handling = .replace then none else
+    om.findSome? (fun (k, ov) =>
+      match (gm.find? (·.1 == k)).map (·.2) with
+      | none => some (pfx ++ k)
+      | some gv =>
+        match dget d k with
+        | none => if (goValJson ov).compress == (goValJson gv).compress then none else some (pfx ++ k)
+        | some s => frameIn uo (pfx ++ k ++ ".") t ov gv s)
+  | _, _, _, _ => none
+end
+
 /-- C04/C13/C14/C06 "unpack": a typed target (type `ty`, pre-filled with `old`) and a config.
 Oracle (C04): a successful result passes recValidate (every declared validator on every reachable field);
 (C13): see the worker's `unchanged` flag on failure. -/
 def runUnpack (std : Stdlib) (c : Json) : R (Json × Option Json × Option String) := do
-  let ty ← parseTy (← c.getObjVal? "ty")
+  let (tk, vk) := tagKeys ((optField c "uopts").getD .null)
+  let ty ← parseTyK tk vk (← c.getObjVal? "ty")
   let old ← match optField c "old" with
     | some .null | none => pure (zeroOf ty)
     | some j => parseGoVal j
@@ -794,21 +834,7 @@ def runUnpack (std : Stdlib) (c : Json) : R (Json × Option Json × Option Strin
           | some e => pure (some (failOracle s!"Unpack returned nil but the result violates a declared validator ({e.reason.name})"))
           | none =>
             -- C13 frame: a non-struct field the configuration has no setting for keeps its previous value
-            let frameBad : Option String := match ty, old, got with
-              | .strct fs, .strct os, .strct gs =>
-                ((fs.zip (os.zip gs)).findSome? (fun ((g, tag, vtag, t), (ov, gv)) =>
-                  match t with
-                  | .strct _ => none
-                  | _ =>
-                    match accessField uo g tag vtag with
-                    | .ok (some fi) =>
-                      if fi.tag.squash then none
-                      else match pathGet tcPlain (parsePathOpts fi.name uo) cfg with
-                        | .ok none => if (goValJson ov).compress == (goValJson gv).compress then none else some fi.name
-                        | _ => none
-                    | .ok none => if (goValJson ov).compress == (goValJson gv).compress then none else some g
-                    | _ => none))
-              | _, _, _ => none
+            let frameBad : Option String := frameRec uo "" ty old got cfg
             match frameBad with
             | some f => pure (some (failOracle s!"field {f} changed although the configuration has no setting for it"))
             | none => pure (some okOracle)
@@ -916,7 +942,7 @@ def runFull (std : Stdlib) (c : Json) : R (Json × Option Json × Option String)
     let c' := c'.setObjVal! "impl" ((optField impl "twin").getD .null)
     let (m, o, _) ← runUnpack std c'
     pure (Json.mkObj [("twin", m)], o, none)
-  | "load" | "mergerep" | "oddtarget" => pure (Json.mkObj [("unmodelled", .bool true)], none, none)
+  | "load" | "mergerep" | "oddtarget" | "unpackers" => pure (Json.mkObj [("unmodelled", .bool true)], none, none)
   | "forest" => pure (runForest c, none, none)
   | "concurrent" =>
     -- reads are functions of the tree: any number of readers get the solo results and leave the tree as it is
